@@ -76,12 +76,12 @@ theorem C16_header_accepted (ls : List DddmpLine) (f : DddmpFile) :
   dddmpApplyLines_ok_iff ls f
 
 /-- the exception of a result -/
-def errOf {α : Type} : Except Err α → Option Err
+def dddmpErrOf {α : Type} : Except Err α → Option Err
   | .error e => some e
   | .ok _ => none
 
-example : errOf (dddmpApplyLines {} [.ver "DDDMP" 2 0, .add, .mode "B", .rootnames [.str "f"]]) = some .other ∧
-    errOf (dddmpApplyLines {} [.ver "DDDMP" 2 0, .rootnames [.str "f"], .mode "B"]) = some .notImplemented ∧
+example : dddmpErrOf (dddmpApplyLines {} [.ver "DDDMP" 2 0, .add, .mode "B", .rootnames [.str "f"]]) = some .other ∧
+    dddmpErrOf (dddmpApplyLines {} [.ver "DDDMP" 2 0, .rootnames [.str "f"], .mode "B"]) = some .notImplemented ∧
     (dddmpApplyLines {} [.ver "x" (-2) 0, .add, .mode "A", .dd "foo", .nvars 3]).toOption.map
       (fun f => (f.add, f.nvars)) = some (true, some 3) := by decide
 
@@ -181,11 +181,11 @@ example : ((loadDddmpText (dddmpDottedText "y.e").toList).toOption.map fun m => 
 
 /-- … with `y.end` the node line of `y.end` ends the body: `AssertionError` (1 line read, 3 announced) … -/
 theorem C16_dotted_end_refused :
-    errOf (loadDddmpText (dddmpDottedText "y.end").toList) = some .assertion := by decide +kernel
+    dddmpErrOf (loadDddmpText (dddmpDottedText "y.end").toList) = some .assertion := by decide +kernel
 
 /-- … with `y.nodes` the `.orderedvarnames` line ends the header: `TypeError` (`len(None)`) -/
 theorem C16_dotted_nodes_refused :
-    errOf (loadDddmpText (dddmpDottedText "y.nodes").toList) = some .type := by decide +kernel
+    dddmpErrOf (loadDddmpText (dddmpDottedText "y.nodes").toList) = some .type := by decide +kernel
 
 /-- the general facts behind the two examples: a line that contains the mark — anywhere — cuts -/
 theorem C16_line_dispatch (pre : List (List Char)) (l : List Char) (body : List (List Char))
@@ -208,8 +208,8 @@ example : hasEndMark "2 y.end 1 1 -1\n".toList = true ∧
 
 /-! ## other refusals / quirks of the text, on the minimal file -/
 
-example : errOf (loadDddmpText (dddmpDottedTextM ".mode B" "y").toList) = some .other ∧
-    errOf (loadDddmpText (dddmpDottedTextM ".mode A .rootnames f" "y").toList) = some .notImplemented ∧
-    errOf (loadDddmpText (dddmpDottedTextM ".add" "y").toList) = none := by decide +kernel
+example : dddmpErrOf (loadDddmpText (dddmpDottedTextM ".mode B" "y").toList) = some .other ∧
+    dddmpErrOf (loadDddmpText (dddmpDottedTextM ".mode A .rootnames f" "y").toList) = some .notImplemented ∧
+    dddmpErrOf (loadDddmpText (dddmpDottedTextM ".add" "y").toList) = none := by decide +kernel
 
 end DD
